@@ -403,6 +403,37 @@ func genC04(g *G) {
 			}
 		}
 	}
+	// BTC scan with the REAL deposit handler reading a chain whose unconfirmed blocks are re-organised between two scan
+	// steps: the block handed on at a height must be the one on the active chain when that height is confirmed
+	for _, sw := range []string{"0,0,1,1,1", "0,1,1,1,1", "0,1,2,2,2", "0,1,0,1,1", "0,0,0,1,1"} {
+		for conf := int64(1); conf <= 3; conf++ {
+			b := strings.Split(sw, ",")
+			rs := []string{}
+			for i, br := range b {
+				rs = append(rs, itoa64(5+conf+int64(i))+"~1~"+br+":n:s")
+			}
+			g.Emit("scan", "btc+", itoa64(conf), "1", "1", "5", strings.Join(rs, ";"))
+		}
+	}
+	for i := 0; i < g.Count(150, 3000); i++ {
+		conf := int64(1 + g.Intn(3))
+		start := int64(g.Intn(6))
+		head := start + conf - 1 + int64(g.Intn(2))
+		br := 0
+		rs := []string{}
+		for j := 0; j < 2+g.Intn(6); j++ {
+			head += int64(g.Intn(3))
+			if g.Intn(3) == 0 {
+				br = (br + 1) % 3
+			}
+			f := "n"
+			if g.Intn(6) == 0 {
+				f = "0" + g.Pick([]string{"a", "b"}) + g.Pick([]string{"g", "t", "w", "u", "n", "c"})
+			}
+			rs = append(rs, itoa64(head)+"~"+itoa(g.Intn(3))+"~"+itoa(br)+":"+f+":s")
+		}
+		g.Emit("scan", "btc+", itoa64(conf), "1", "1", itoa64(start), strings.Join(rs, ";"))
+	}
 	// retry guards: exhaustive grid
 	for conf := int64(0); conf <= 4; conf++ {
 		for h := int64(0); h <= 9; h++ {
